@@ -31,6 +31,7 @@ type Config struct {
 	DeadlockOK       bool
 	PoolAdversarial  bool
 	FixedClock       bool
+	PromptClock      bool
 	MapReverse       bool
 	Params           map[string]int
 	Stubs            map[string]string
